@@ -71,7 +71,7 @@ attack = st.one_of(
     st.fixed_dictionaries({"cls": st.just("late-hello"), "kind": st.sampled_from(["other-session", "own", "attacker-signed", "own-bytes-flipped", "client-hello-to-server", "client-hello-to-server"]),
                            "seq_ahead": st.sampled_from([1, 5, 40, 300]), "msg_ahead": st.sampled_from([1, 40, 300, 2000])}),
     st.fixed_dictionaries({"cls": st.just("schedule"), "ops": st.lists(st.tuples(st.sampled_from([1, 2, 3]), st.sampled_from(
-        ["drop", "dup-now", "dup-late", "dup-very-late", "delay"])).map(list), min_size=1, max_size=3)}),
+        ["drop", "dup-now", "dup-late", "dup-very-late", "delay", "delay-past-connect-timeout"])).map(list), min_size=1, max_size=3)}),
 )
 
 cases = st.fixed_dictionaries({
@@ -205,6 +205,8 @@ class Mitm(object):
                     out = out + [2.0]     # after the traffic phase: > 32 datagrams and > 256 messages later
                 elif op == "delay":
                     out = [d + 0.25 for d in out]
+                elif op == "delay-past-connect-timeout":
+                    out = [d + 0.8 for d in out]     # the client's connect timeout is 0.5 s in this case (set by the caller)
             return out
         return [0.002]
 
@@ -367,6 +369,8 @@ def body(ctx, c, stats=None):
         w.net.policy = mitm
         connect_events = []
         w.on_event.append(lambda e: connect_events.append(e) if e["ev"] == "connect" and e["addr"] == ch.laddr else None)
+        if a["cls"] == "schedule" and any(op == "delay-past-connect-timeout" for _, op in a["ops"]):
+            ch.udp.setConnectionTimeout(0.5)
         ch.connect()
 
         def check_step():
@@ -403,7 +407,9 @@ def body(ctx, c, stats=None):
             w.step(0.02)
             check_step()
         # traffic afterwards (so that a late duplicate meets an established, busy connection)
+        traffic_ran = False
         if c["traffic"] and ch.connected():
+            traffic_ran = True
             for i in range(40):
                 ch.send(W.payload_for(i, 30), retry=RetryMode.NONE.value, callback=False)
                 for j in range(7):
@@ -488,13 +494,18 @@ def body(ctx, c, stats=None):
                 ctx.violation("late-hello-disturbed-session", "attack %r: client %s, server has connection %s, keys equal %s" % (
                     a, ch.status(), sc is not None, sc is not None and ch.conn is not None and ch.conn.session_key_bytes == sc.session_key_bytes))
         tampered = a["cls"] in ("bytes", "hello", "challenge")
-        if a["cls"] == "none" or (a["cls"] == "schedule" and not any(op == "drop" for _, op in a["ops"])):
+        if a["cls"] in ("none", "schedule") and ch.conn is not None and ch.conn.session_key_bytes is not None:
+            # honest datagrams only (however scheduled): whatever the server holds for that address carries the same key
+            held = w.ctxt.connections.get(ch.laddr) or w.ctxt.temp_connections.get(ch.laddr)
+            if held is not None and held.session_key_bytes != ch.conn.session_key_bytes:
+                ctx.violation("keys-differ-after-honest-handshake", "attack %r: the client holds a key the server's connection for it does not hold" % (a,))
+        if a["cls"] == "none" or (a["cls"] == "schedule" and not any(op in ("drop", "delay-past-connect-timeout") for _, op in a["ops"])):
             # B / D: honest datagrams only (possibly duplicated, delayed): both ends connected with one key
             if not ch.connected() or sc is None:
                 ctx.violation("honest-handshake-failed", "attack %r: client %s, server has connection %s" % (a, ch.status(), sc is not None))
             elif ch.conn.session_key_bytes != sc.session_key_bytes or ch.conn.token != sc.token or len(sc.session_key_bytes) != 16:
                 ctx.violation("keys-differ-after-honest-handshake", "attack %r: client and server hold different keys/tokens" % (a,))
-            elif c["traffic"]:
+            elif c["traffic"] and traffic_ran:
                 got = w.ledger.n_delivered(("s", ch.laddr), W.payload_for(39, 30)) + w.ledger.n_delivered(("c", ch.laddr), W.payload_for(1039, 30))
                 if got < 2 and ch.connected():
                     ctx.violation("session-unusable-after-handshake", "attack %r: traffic stopped flowing (late duplicate disturbed the session?)" % (a,))
